@@ -1,7 +1,7 @@
 (* Props/C02.v — multilinear products equal their definition in every representation.
    Only statements, `exact`, Print Assumptions. Specs: Model/C02Spec.v; models: Model/C02*.v; proofs: Proofs/C02*.v *)
 From Coq Require Import List Arith Bool ZArith Ring.
-From PV Require Import Base.Index Base.Perm Base.Sum Np.NpZ Np.Array Model.Sparse Model.Repr Gen.GenUtils
+From PV Require Import Base.Index Base.Perm Base.Sum Np.NpZ Np.Array Model.Sparse Model.Repr Gen.GenUtils Gen.GenUtils2 Model.C02TenmatReq Proofs.C02TenmatReqProofs
                        Model.C02Spec Model.C02Dense Model.C02Sparse Model.C02Modes Model.C02Kruskal Model.C02SpKernels Model.C02Absorb Model.C02Tenmat Model.C02SpMore Model.C02KruskalMore Model.C02Tucker Model.C02TuckerFull
                        Proofs.C02DenseProofs Proofs.C02SparseProofs Proofs.C02ModesProofs Proofs.C02MttkrpProofs
                        Proofs.C02KruskalProofs Proofs.C02SpKernelsProofs Proofs.C02AbsorbProofs Proofs.C02TenmatProofs Proofs.C02PermProofs Proofs.C02IndicatorProofs Proofs.C02SpMoreProofs Proofs.C02KruskalMoreProofs Proofs.C02TuckerProofs Proofs.C02TuckerTtvProofs Proofs.C02TuckerMttkrpProofs Proofs.C02TuckerFullProofs Proofs.C02KruskalAnyProofs.
@@ -434,6 +434,24 @@ Theorem C02_innerprod_kruskal_any : forall (K : ktensor V) (g : idx -> V),
       (spec_ttv v0 vadd vmul g (kshape K) (seq 0 (length (kfactors K))) (kcols V v0 (kfactors K) r) [])) =
   spec_innerprod v0 vadd vmul g (den_k v0 v1 vadd vmul K) (kshape K).
 Proof. exact (innerprod_k_any V v0 v1 vadd vmul vsub vopp Vring). Qed.
+(* ---- tensor.ttt / to_tenmat tied to the GENERATED gather_wrap_dims (Gen/GenUtils2.v, re-translated from pyttb_utils.py on every run) ----
+   ttt as called (amatrix = self.to_tenmat(cdims=selfdims), bmatrix = other.to_tenmat(rdims=otherdims), product, to_tensor) IS the
+   transliteration of C02_ttt_dense: the generated helper's complement convention is compl *)
+Theorem C02_ttt_dense_req : forall (X Y : dense V) (sd od : vec),
+  (forall x, In x sd -> (0 <= x)%Z) -> (forall x, In x od -> (0 <= x)%Z) ->
+  impl_ttt_req v0 vadd vmul X Y sd od = Ok (impl_ttt_dense v0 vadd vmul X Y (nats sd) (nats od)).
+Proof. exact (impl_ttt_req_eq V v0 vadd vmul). Qed.
+
+(* to_tenmat with both mode lists (collapse: (remdims, dims); scale: (dims, remdims)) and with all modes as rows (scale's factor) *)
+Theorem C02_to_tenmat_req_both : forall (X : dense V) (r c : vec),
+  impl_to_tenmat_req v0 X (Some r) (Some c) = Ok (impl_to_tenmat v0 X (nats r) (nats c), (nats r, nats c)).
+Proof. exact (impl_to_tenmat_req_both V v0). Qed.
+
+Theorem C02_to_tenmat_req_rows_all : forall (X : dense V),
+  impl_to_tenmat_req v0 X (Some (np_arange 0 (Z.of_nat (length (dshape X))))) None =
+  Ok (impl_to_tenmat v0 X (seq 0 (length (dshape X))) (compl (length (dshape X)) (seq 0 (length (dshape X)))),
+      (seq 0 (length (dshape X)), compl (length (dshape X)) (seq 0 (length (dshape X))))).
+Proof. exact (impl_to_tenmat_req_rows_all V v0). Qed.
 End C02.
 
 Print Assumptions C02_ttv_dense.
@@ -491,6 +509,9 @@ Print Assumptions C02_innerprod_tucker_dense.
 Print Assumptions C02_normsq_tucker.
 Print Assumptions C02_innerprod_tucker_tucker.
 Print Assumptions C02_innerprod_kruskal_any.
+Print Assumptions C02_ttt_dense_req.
+Print Assumptions C02_to_tenmat_req_both.
+Print Assumptions C02_to_tenmat_req_rows_all.
 
 (* non-vacuity: concrete non-symmetric instances over Z *)
 Local Open Scope Z_scope.
@@ -598,4 +619,7 @@ Example C02_ex_innerprod_t : impl_innerprod_t_dense 0 Z.add Z.mul (mkT (mkDense 
 Proof. reflexivity. Qed.
 Example C02_ex_innerprod_tt : impl_innerprod_tt 0 Z.add Z.mul (mkT (mkDense [1; 2]%nat [2; -1]) [[[1]; [2]]; [[1; 0]; [0; 1]; [1; 1]]])
                                (mkT (mkDense [2; 1]%nat [1; 3]) [[[1; 0]; [0; 1]]; [[1]; [1]; [0]]]) = 7.
+Proof. reflexivity. Qed.
+Example C02_ex_ttt_req : impl_ttt_req 0 Z.add Z.mul (mkDense [2; 3]%nat [1; 2; 3; 4; 5; 6]) (mkDense [3; 2]%nat [1; 0; 2; 0; 1; -1]) [1] [0]
+                         = Ok (mkDense [2; 2]%nat [11; 14; -2; -2]).
 Proof. reflexivity. Qed.
